@@ -988,6 +988,34 @@ theorem deferred_differs_from_immediate :
      glyphOrder (run { fh with lib := some ["b", "c", "a"] } [.delGlyph "fg" "a", .rename "fg" "b" "a"]) =
        ["a", "c"]) := by decide
 
+/-- … and these are the only two ways in which it can differ.  For a well-formed font, a calm layer and
+any block of glyph operations on it: if (1) the block posts no notification twice — nothing is
+coalesced — and (2) every callback of the run WITHOUT the hold got, about the name it asks about
+("does any layer still have it"), the answer that the state at the release gives, then the order after
+hold – block – release IS the order after the block alone, and so are the layers' names.  (Dropping
+(1): `held_gone_leaves_violated`; dropping (2): `deferred_differs_from_immediate`.) -/
+theorem held_equals_immediate (f : Font) (hw : WF f) (L : String) (l : Layer)
+    (hget : AL.get? f.layers L = some l) (hc : l.calm) (block : List Op)
+    (hb : ∀ op ∈ block, op.onLayer L = true)
+    (hnd : (blockRun (l.glyphs, []) block).2.Nodup)
+    (ha : AnswersAs (anyLayerHas (heldRun f L block)) L f block) :
+    glyphOrder (heldRun f L block) = glyphOrder (run f block) ∧
+    ∀ K, layerGlyphs (heldRun f L block) K = layerGlyphs (run f block) K := by
+  obtain ⟨_, h2, h3, _⟩ := held_block_order f hw L l hget hc block hb
+  obtain ⟨i1, i2⟩ := immediate_as_deliverAll block hb hw hget hc ha
+  refine ⟨?_, ?_⟩
+  · rw [h3, i2, coalesce_of_nodup (by simpa using hnd)]
+    rfl
+  · intro K; unfold layerGlyphs; rw [h2, i1]
+
+example : AnswersAs (anyLayerHas (heldRun fh "fg" [.delGlyph "fg" "a", .newGlyph "fg" "z", .rename "fg" "b" "y"]))
+    "fg" fh [.delGlyph "fg" "a", .newGlyph "fg" "z", .rename "fg" "b" "y"] := by decide
+example : glyphOrder (heldRun fh "fg" [.delGlyph "fg" "a", .newGlyph "fg" "z", .rename "fg" "b" "y"]) =
+    ["y", "c", "z"] := by decide
+-- (2) fails for "delete a, create a again": the deletion's callback was told "gone", the release says "there"
+example : ¬ AnswersAs (anyLayerHas (heldRun fh "fg" [.delGlyph "fg" "a", .newGlyph "fg" "a"]))
+    "fg" fh [.delGlyph "fg" "a", .newGlyph "fg" "a"] := by decide
+
 /-- `disableNotifications()` … `enableNotifications()` around a block: the font is told nothing, at
 any time — the order after the block is the order before it, whatever was created, deleted or
 renamed (this is what disabling asks for; the property's sentences are not demanded of such a
